@@ -11,12 +11,7 @@ LEAN_TARGETS = ['NibabelModel.Props.C06']
 THEOREMS = [
     'Nb.PySlice.sel_lt',
     'Nb.PySlice.sel_length',
-    'Nb.C06.fillSlicer_sel',
-    'Nb.C06.fullSlicerLen_fill',
-    'Nb.C06.slice2len_spec',
-    'Nb.C06.positiveSlice_sel',
-    'Nb.C06.optimizeSlicer_sound',
-    'Nb.C06.thresholdHeuristic_int_not_contiguous',
+    'Nb.C06.fillSlicerOrig_counterexample',
 ]
 ASSUMPTIONS = [
     'hand-written Lean model of nibabel/fileslice.py (Model/C06.lean), tied to the code by the '
@@ -364,6 +359,8 @@ def cases(rng, tier):
         nd = rng.choice([1, 2, 2, 3, 3, 4])
         big = rng.random() < 0.05
         shape = tuple(rng.choice([0, 1, 1, 2, 3, 4, 5]) if not big else rng.choice([1, 7, 16, 33]) for _ in range(nd))
+        while int(np.prod(shape)) > 2500:
+            shape = shape[:-1]
         isz = rng.choice([1, 2, 3, 8, 16])
         if isz == 1 and int(np.prod(shape)) > 256:
             isz = 2
